@@ -371,7 +371,23 @@ def r19g(ctx: Context) -> None:
         ups = [s for s in prog.callers.get(holder.qualname, []) if s.caller.qualname in closure_names and s.caller != holder]
         if not ups:
             return [own]
-        return [outer + own for up in ups for outer in contexts(up.caller, up.node, depth + 1)]
+        def selected_under(up) -> List[Tuple[ast.AST, bool]]:
+            """the call goes through a local that a conditional expression binds to one function or another: the
+            condition under which it is this one"""
+            callee = up.node.func
+            if not isinstance(callee, ast.Name):
+                return []
+            bound = [n.value for n in walk_local(up.caller.node) if isinstance(n, (ast.Assign, ast.AnnAssign)) and getattr(n, "value", None) is not None
+                     and any(isinstance(t, ast.Name) and t.id == callee.id for t in (n.targets if isinstance(n, ast.Assign) else [n.target]))]
+            if len(bound) == 1 and isinstance(bound[0], ast.IfExp):
+                names_holder = lambda expr: (dotted(expr) or "").split(".")[-1].lstrip("_") == holder.name.lstrip("_")  # noqa: E731
+                if names_holder(bound[0].body) and not names_holder(bound[0].orelse):
+                    return [(bound[0].test, True)]
+                if names_holder(bound[0].orelse) and not names_holder(bound[0].body):
+                    return [(bound[0].test, False)]
+            return []
+
+        return [outer + selected_under(up) + own for up in ups for outer in contexts(up.caller, up.node, depth + 1)]
 
     for site in [(s, c) for s in sites for c in contexts(s.caller, s.node)]:
         site, context = site
